@@ -136,5 +136,5 @@ def run(ck):
         if len(samples) < 5 and evals % 4001 == 2:
             samples.append({'file': show.decode('latin-1'), 'seq': seq, 'rcs': [s[0] for s in steps], 'changed': steps[0][1] != f})
     ck.coverage(states=len(outcomes), transitions=evals, traces_validated_against_impl=evals, evaluations=evals, distinct_nontrivial=len(outcomes), files=len(fs),
-                rule='all files up to the line bound over the 20-line alphabet x {final newline, none} + absent + empty, each: disable;disable and enable;disable; distinct = (sequence, exit codes, changed?, #active mentions, failure set)',
+                rule='all files up to the line bound over the 22-line alphabet x {final newline, none} + absent + empty, each: disable;disable and enable;disable; distinct = (sequence, exit codes, changed?, #active mentions, failure set)',
                 samples=samples or [{'note': 'none'}])
